@@ -32,7 +32,7 @@ static unsigned short g_op[SCHED_MAX_THREADS];
 static unsigned g_fn[SCHED_MAX_THREADS];
 static const int *g_prefix;
 static int g_nprefix;
-static const unsigned char *g_expect;
+static const unsigned *g_expect;
 static sched_rec g_trace[SCHED_MAX_POINTS];
 static int g_np;
 static char g_ctx[4096];
@@ -66,12 +66,12 @@ NOINSTR void sched_set_context(const char *text) {
   g_ctx[sizeof g_ctx - 1] = 0;
 }
 
-NOINSTR void sched_begin(int nthreads, const int *prefix, int nprefix, const unsigned char *expect_nen) {
+NOINSTR void sched_begin(int nthreads, const int *prefix, int nprefix, const unsigned *expect_sig) {
   if (nthreads < 1 || nthreads > SCHED_MAX_THREADS) die("bad thread count", nthreads, 0);
   g_nt = nthreads;
   g_prefix = prefix;
   g_nprefix = nprefix;
-  g_expect = expect_nen;
+  g_expect = expect_sig;
   g_np = 0;
   g_cur = -1;
   g_alive = nthreads;
@@ -98,7 +98,6 @@ static NOINSTR int decide(int kind, int t, int cur_enabled) {
   int i = g_np;
   if (i >= SCHED_MAX_POINTS) die("too many scheduling points", i, 0);
   int c = i < g_nprefix ? g_prefix[i] : 0; /* replay, then default "keep running" */
-  if (i < g_nprefix && g_expect && g_expect[i] != n) die("divergence: enabled-set size differs from recording", g_expect[i], n);
   if (c < 0 || c >= n) die("divergence: choice out of range", c, n);
   int nx = t;
   if (c != 0 || !cur_enabled) { /* enabled list: running thread first (if enabled), then ascending ids */
@@ -118,6 +117,8 @@ static NOINSTR int decide(int kind, int t, int cur_enabled) {
   r->next = (signed char)nx;
   r->opidx = t >= 0 ? g_op[t] : 0;
   r->funcnt = t >= 0 ? g_fn[t] : 0;
+  if (i < g_nprefix && g_expect && g_expect[i] != sched_sig(r))
+    die("divergence: replay reached a different point (enabled set / thread / position) than recorded", (int)g_expect[i], (int)sched_sig(r));
   g_np = i + 1;
   return nx;
 }
@@ -204,6 +205,25 @@ NOINSTR void __cyg_profile_func_enter(void *fn, void *site) {
 NOINSTR void __cyg_profile_func_exit(void *fn, void *site) {
   (void)fn;
   (void)site;
+}
+
+/* worker pool generation word = (generation << 3) | workers of that generation.  No hang timeout here: an idle
+ * pool thread may sleep for as long as it likes. */
+static int g_gen;
+NOINSTR int sched_pool_wait(int *seen) {
+  for (;;) {
+    int v = __atomic_load_n(&g_gen, __ATOMIC_ACQUIRE);
+    if (v != *seen) {
+      *seen = v;
+      return v & 7;
+    }
+    syscall(SYS_futex, &g_gen, FUTEX_WAIT_PRIVATE, v, NULL, NULL, 0);
+  }
+}
+NOINSTR void sched_pool_release(int nthreads) {
+  int v = (int)(((((unsigned)g_gen >> 3) + 1) << 3) | (unsigned)nthreads);
+  __atomic_store_n(&g_gen, v, __ATOMIC_RELEASE);
+  syscall(SYS_futex, &g_gen, FUTEX_WAKE_PRIVATE, 64, NULL, NULL, 0);
 }
 
 /* spin barrier for the free-running (no scheduler) pass */
